@@ -242,9 +242,12 @@ def q20p(bf: int, bc: int, vf: int, vc: int, cf: int, cc: int, ce: bool) -> str:
 
 
 # ---------------------------------------------------------------- Q20r the selected backend's settings - and only those - reach it
-def _q20r(be, lm, acct, foreign, port):
-    if not (q.in_range(be, 2) and q.in_range(lm, 4) and q.in_range(acct, 3) and q.in_range(foreign, 5) and q.in_range(port, 3)):
+def _q20r(be, lm, acct, foreign, port, late):
+    if not (q.in_range(be, 2) and q.in_range(lm, 4) and q.in_range(acct, 3) and q.in_range(foreign, 5) and q.in_range(port, 3) and q.in_range(late, 3)):
         return q.SKIP
+    if be == 0 and late != 0:
+        return q.SKIP
+    late = q.pick([0, 1, 2], late)
     name = q.pick(["slurm", "local"], be)
     user = {}
     log_mode = q.pick([None, "full", "merged", "none"], lm)
@@ -265,6 +268,8 @@ def _q20r(be, lm, acct, foreign, port):
     w.vfs.add(CONF, 1, json.dumps(user))
     w.vfs.add(w.tracked_path(), 1, json.dumps({"A": "55" if name == "slurm" else 55}))
     abst.add_tracked_job(w, "A", "55" if name == "slurm" else 55, "running")
+    if name == "local":
+        w.pool.refuse_first = late          # the workers come up while gwf is already trying to connect
     w.install()
     try:
         ctx = w.ctx()
@@ -280,17 +285,19 @@ def _q20r(be, lm, acct, foreign, port):
         else:
             want_addr = ("pool.example", p) if p is not None else ("localhost", 12345)
             if tuple(w.pool.last_addr) != want_addr:
-                return "client connected to %r, configured %r" % (w.pool.last_addr, want_addr)
+                return "client connected to %r, configured %r (after %d refused attempts)" % (w.pool.last_addr, want_addr, late)
+            if any(a != want_addr for a in w.pool.attempts):
+                return "connection attempts went to %r, configured %r" % (w.pool.attempts, want_addr)
         return ""
     finally:
         w.uninstall()
 
 
-def q20r(be: int, lm: int, acct: int, foreign: int, port: int) -> str:
+def q20r(be: int, lm: int, acct: int, foreign: int, port: int, late: int) -> str:
     """
     post: _ == ""
     """
-    return q.run(_q20r, (be, lm, acct, foreign, port))
+    return q.run(_q20r, (be, lm, acct, foreign, port, late))
 
 
 QUERIES = [
@@ -301,7 +308,7 @@ QUERIES = [
     {"name": "Q20b", "fn": q20b, "shards": [{"op": 0, "ki": 0}, {"op": 0, "ki": 1}, {"op": 0, "ki": 2}, {"op": 1}, {"op": 2}], "timeout": {"quick": 900, "thorough": 1800},
      "bound": "arbitrary user map over 3 keys incl. one with a default and two sharing a prefix (each absent, text or int; the addressed key also True/False/0/1) plus two fixed bystander keys; one step of set (9 values incl. '1','0','yes','no') / unset / get on any of the 3"},
     {"name": "Q20p", "fn": q20p, "shards": [{"bf": 0}, {"bf": 1}, {"bf": 2}], "timeout": 900, "bound": "every combination of flag / config / default for backend (3x3), verbosity (3x4 incl. an invalid configured level), colour (3x3x NO_COLOR)"},
-    {"name": "Q20r", "fn": q20r, "shards": [{}], "timeout": 900, "bound": "slurm and local backends; log_mode (4), accounting switch (3), host/port (3), one foreign key from 5"},
+    {"name": "Q20r", "fn": q20r, "shards": [{}], "timeout": 900, "bound": "slurm and local backends; log_mode (4), accounting switch (3), host/port (3), one foreign key from 5; local: the pool accepts the 1st, 2nd or 3rd connection attempt (back-off sleep stubbed)"},
 ]
 
 
